@@ -15,6 +15,7 @@ class SpecEval(object):
         self.old = old          # State for old(...)
         self.what = what
         self.bound = {}
+        self.no_expand = False
 
     # -- helpers
     def lookup(self, name):
@@ -276,7 +277,7 @@ class SpecEval(object):
                     self.bound[name] = saved
             return and_(*parts) if which == 'forall' else or_(*parts)
         qmax = self.ex.opts.get('qmax') if self.ex.expand_small_quants else None
-        if qmax is not None and not self.ex.has_bound([lo, hi]) and not (lo.is_int() and hi.is_int()):
+        if qmax is not None and not self.no_expand and not self.ex.has_bound([lo, hi]) and not (lo.is_int() and hi.is_int()):
             # bounded mode: expand over lo .. lo+qmax-1 with guards; exact iff hi - lo <= qmax (side obligation)
             self.ex.oblige(self.st, 'qbound', which, le(sub(hi, lo), I(qmax)), {'clause': 'quantifier range within the bounded-mode expansion limit'})
             parts = []
@@ -305,6 +306,12 @@ class SpecEval(object):
                 del self.bound[name]
             else:
                 self.bound[name] = saved
+        if which == 'forall' and body.op == 'and':
+            # forall distributes over conjunction: one quantifier per conjunct, each re-indexed for its own array
+            return and_(*[self.finish_quant(which, name, '%d_%d' % (n, ci), k, lo, hi, cj) for ci, cj in enumerate(body.args)])
+        return self.finish_quant(which, name, n, k, lo, hi, body)
+
+    def finish_quant(self, which, name, n, k, lo, hi, body):
         # phrase array facts over absolute indices: if the body reads A[k + rest], re-index by j = k + rest
         cnt = {}
         for x in subterms(body):
@@ -317,14 +324,14 @@ class SpecEval(object):
         if cnt:
             cf, rest = max(cnt, key=lambda cr: (cnt[cr], cr[0], -len(smt(cr[1]))))
             if cf == 1 and not (rest.is_int() and rest.val == 0):
-                j = const('%s?%dj' % (name, n), INT)
+                j = const('%s?%sj' % (name, n), INT)
                 m = {k: sub(j, rest)}
                 body = substitute(body, m)
                 lo, hi = add(lo, rest), add(hi, rest)
                 k = j
             elif cf == -1:
                 # index = rest - k  ->  j = rest - k, k = rest - j, range lo <= k < hi  <=>  rest-hi < j <= rest-lo
-                j = const('%s?%dj' % (name, n), INT)
+                j = const('%s?%sj' % (name, n), INT)
                 m = {k: sub(rest, j)}
                 body = substitute(body, m)
                 lo, hi = add(sub(rest, hi), ONE), add(sub(rest, lo), ONE)
